@@ -25,7 +25,7 @@ static i128 zval(const z_number &z) { z_number a = z < z_number(0) ? -z : z; i12
   while (a > z_number(0)) { r += m * (i128)(int64_t)(a % base); a = a / base; m <<= 32; } return z < z_number(0) ? -r : r; }
 static z_number mkz(i128 v) { bool neg = v < 0; u128 u = neg ? (u128)(-v) : (u128)v; z_number hi = z_number::from_uint64((uint64_t)(u >> 64)), lo = z_number::from_uint64((uint64_t)u);
   z_number r = (hi << z_number(64)) + lo; return neg ? -r : r; }
-static i128 wz(const Wit &w, const std::string &p) { return (i128)(((u128)w.u(p + ".f0.a[0].f1") << 64) | (u128)w.u(p + ".f0.a[0].f0")); }
+static i128 wz(const Wit &w, const std::string &p) { return (i128)(((u128)w.u(p + ".f0.a.f1") << 64) | (u128)w.u(p + ".f0.a.f0")); }
 #define Z63(v) ((v) >= -((i128)1 << 63) && (v) < ((i128)1 << 63))
 static uint64_t sdivv(uint64_t x, uint64_t y, uint64_t w) { i128 a = sxv(x, w), b = sxv(y, w); return wrapz(b == 0 ? 0 : a / b, w); }
 
@@ -91,4 +91,14 @@ REPLAY(mk_winterval2) { ghosts(wit); i128 lb = wz(wit, "lb"), ub = wz(wit, "ub")
   RWI r = RWI::mk_winterval(mkz(lb), mkz(ub), width); show("result", r); WI t = L(r);
   return wi_okw(t, width) && IMPL(lb <= g && g <= ub, wi_has(t, wrapz(g, width))); }
 REPLAY(mk_winterval1) { ghosts(wit); i128 n = wz(wit, "n"); uint64_t width = wit.u("width"); if (!Z63(n)) return true; RWI r = RWI::mk_winterval(mkz(n), width); show("result", r); return wi_has(L(r), wrapz(n, width)); }
+// regression witnesses with concrete operands (the harness builds the same values)
+REPLAY(widen_limit) { ghosts(wit); uint64_t lim = g_w > 3 ? (uint64_t)1 << (g_w - 3) : (uint64_t)1 << (g_w - 1); RWI a(wrapint(0, g_w), wrapint(lim, g_w)), b(wrapint(0, g_w), wrapint(lim + 1, g_w));
+  show("self", a); show("x", b); RWI r = a || b; show("result", r); return wi_top(L(r)); }
+REPLAY(widen_cover) { RWI a(wrapint(186, 8), wrapint(200, 8)), b(wrapint(197, 8), wrapint(187, 8)); show("self", a); show("x", b); RWI r = a || b; show("result", r); return wi_top(L(r)) && wi_has(L(r), 193); }
+REPLAY(zext_top) { RWI a = RWI::top(); show("self", a); RWI r = a.ZExt(3); show("result", r); return wi_top(L(r)); }
+REPLAY(sext_top) { RWI a = RWI::top(); show("self", a); RWI r = a.SExt(3); show("result", r); return wi_top(L(r)); }
+REPLAY(widen_grow) { ghosts(wit); RWI a = mki(wit, "a"), b = mki(wit, "b"); show("self", a); show("x", b); RWI r = a || b; show("result", r); WI s = L(a), o = L(b), t = L(r);
+  return wi_top(t) || wi_bot(s) || (sp_leq(o, s) && wi_same(t, s)) || (!wi_bot(t) && wi_card(t, g_w) >= 2 * wi_card(s, g_w)); }
+REPLAY(exact_meet) { ghosts(wit); RWI a = mki(wit, "a"), b = mki(wit, "b"); show("self", a); show("x", b); std::vector<RWI> out; a.exact_meet(b, out); bool in = false;
+  for (auto &p : out) { show("piece", p); in = in || wi_has(L(p), g_x); } return in == (wi_has(L(a), g_x) && wi_has(L(b), g_x)); }
 int main(int argc, char **argv) { return replay_main(argc, argv); }
